@@ -3,7 +3,7 @@ SPEC = dict(
     test="TestVerifC11",
     level="exploration",
     workers=16,
-    deadline={"quick": 170, "thorough": 2100},
+    deadline={"quick": 240, "thorough": 2100},
     hooks=["coordinator"],
     rule="an evaluation is one (configuration, condition, stored point) triple: the point was routed by the real writer, "
          "the condition mapped to shards by the real planner + cluster shard mapper (and, for parenthesised 3-atom trees, "
